@@ -483,9 +483,14 @@ mutual
         let fs ← fill root slots false
         if adds.length = 0 then finishMembers fs c1 ood1
         else
-          -- `if self.additions:` a second `decode_members`, which starts with `is_end_of_data` again
-          let (slots2, c2, ood2) ← retry (decPass adds root.length fuel) (adds.length + 1)
-                                     (List.replicate adds.length none) c1
+          -- `if self.additions:` a second `decode_members(..., out_of_data=out_of_data)`: its
+          -- `while not out_of_data:` loop is skipped when the root call already reached (and, for the
+          -- indefinite form, consumed) the end of the contents (/repo commit 300e5ac; before that fix
+          -- the loop started with `is_end_of_data` again, beyond the end-of-contents octets)
+          let (slots2, c2, ood2) ←
+            (if ood1 then .ok (List.replicate adds.length none, c1, true)
+             else retry (decPass adds root.length fuel) (adds.length + 1)
+                    (List.replicate adds.length none) c1)
           let fs2 ← fill adds slots2 true
           finishMembers (fs ++ fs2) c2 ood2
     | .sequenceOf e _, tg, fuel, bs => do
